@@ -1,0 +1,22 @@
+//go:build verif
+
+// Contracts for govc (contract-based deductive verification, see /verif/DESIGN.md).
+// Comment-only file: it adds no code and is compiled only with -tags verif.
+
+package ch_wrapper
+
+// Ghost: the INSERTs sent to ClickHouse. doCalls counts them, doErr is the
+// outcome of the last one. Assumed: Do returns nil only if ClickHouse accepted
+// the whole block.
+//@ ghost var doCalls int
+//@ ghost var doErr error
+
+//@ iface (IChClient).Do(ctx, query)
+//@   ghostset doCalls = doCalls + 1
+//@   ghostset doErr = result
+//@   modifies doCalls, doErr
+
+//@ iface (IChClient).Close()
+//@   modifies nothing
+//@ iface (IChClient).Ping(ctx)
+//@   modifies nothing
